@@ -17,6 +17,7 @@ IDENTITY_CALLS = {'numpy.array', 'numpy.asarray', 'numpy.asanyarray', 'numpy.squ
                   'emd.support.ensure_1d_with_singleton', 'emd.support.ensure_2d', 'emd.support.ensure_vector'}
 
 
+C0 = ('c', 0)
 CALL_ALIASES = {'numpy.absolute': 'numpy.abs', 'builtins.abs': 'numpy.abs', 'numpy.fabs': 'numpy.abs',
                 'builtins.sum': 'numpy.sum', 'builtins.max': 'numpy.max', 'builtins.min': 'numpy.min',
                 'builtins.any': 'numpy.any', 'builtins.all': 'numpy.all', 'numpy.alltrue': 'numpy.all',
@@ -296,10 +297,15 @@ class Algebra:
             name, base, args, kws = t[1], t[2], t[3], dict(t[4])
             if name in IDENTITY_METHODS:
                 return self.poly(base)
-            if name in ('sum', 'mean') and not args:
+            if name in ('sum', 'mean') and not args and set(kws) <= {'axis', 'keepdims'}:
                 ax = kws.get('axis')
                 if ax is not None and is_c(ax) and ax[1] == 1:
                     return self._sumcols(base, mean=(name == 'mean'))
+                # np.array([a, b]).mean(axis=0)  ==  np.mean([a, b], axis=0)
+                if ax is not None and is_c(ax) and ax[1] == 0 and base[0] == 'call' \
+                        and base[1] in ('numpy.array', 'numpy.asarray', 'numpy.stack', 'numpy.vstack') and len(base[2]) == 1 \
+                        and base[2][0][0] in ('list', 'tuple') and not base[3]:
+                    return self.poly(('call', 'numpy.' + name, (base[2][0],), (('axis', C0),)))
             return self.atom(t)
         if k == 'call':
             name = t[1]
@@ -309,6 +315,10 @@ class Algebra:
                     arg = arg[1][0]
                 if arg[0] not in ('list', 'tuple'):
                     return self.poly(arg)
+            if name in ('numpy.mean', 'numpy.sum') and len(t[2]) == 1 and t[2][0][0] not in ('list', 'tuple') \
+                    and set(dict(t[3])) <= {'axis', 'keepdims'} and dict(t[3]).get('axis') == ('c', 1):
+                # np.sum(M, axis=1[, keepdims=True])  ==  M.sum(axis=1)[:, None] up to shape
+                return self._sumcols(t[2][0], mean=(name == 'numpy.mean'))
             if name in ('numpy.mean', 'numpy.sum') and t[2] and t[2][0][0] in ('list', 'tuple'):
                 kws = dict(t[3])
                 ax = kws.get('axis', t[2][1] if len(t[2]) > 1 else None)
